@@ -12,6 +12,10 @@ clauses
                       thermometer; expm1 reference)                                       rel 1e-12
   fd-identity         c2^2 m/(kB T) + c1^2 == 1                                          abs 1e-12   (and 1e-6 with CODATA kB)
   fd-padding / fd-T0  c2 == 0 exactly on padding rows / everywhere when T == 0
+                      all fd-* clauses are also evaluated on a REUSED driver object: after md.Temp is changed and initialize is
+                      called again, and after the same driver is initialised on another molecule of the same padded shape
+                      with other elements (cells .../reuse-Temp, .../reuse-molecule); meanT is judged on the second stage of a
+                      staged-heating run of one driver (cell .../after-stage-at-<T>K)
   ou-chi2             after n real half-step updates from Maxwell-Boltzmann at T0, sum m v^2 / (kB T_n) over one element's
                       atoms x rows x xyz is chi^2(N) with T_n = c1^2n T0 + (1 - c1^2n) T (T0 = T: invariance); two-sided
                       exact quantiles at alpha = 1e-12 per test
@@ -44,7 +48,7 @@ ASSUMPTIONS = ["float64 CPU", "statistical clauses: per-test alpha = 1e-12 (exac
                "error that is >= 2x the true one", "masses of the shipped table are the property's given",
                "kinetic temperature of the Bussi-Parrinello scheme is unbiased at step ends for harmonic modes; anharmonic / "
                "initial-transient bias is covered by the 1 % allowance (burn-in >= 8 tau)"]
-REQUIRED_MONITORS = ["identity_atoms", "identity_engines", "stat_tests", "thermostat_updates", "meanT_samples", "tauinf_pairs",
+REQUIRED_MONITORS = ["identity_atoms", "identity_engines", "identity_reuse", "meanT_reused_driver", "stat_tests", "thermostat_updates", "meanT_samples", "tauinf_pairs",
                      "tzero_hook_calls", "call_steps_damped", "call_steps_undamped"]
 CASE_TIMEOUT = 1500.0
 BUDGET_S = {"quick": 200, "thorough": 1700}
@@ -92,12 +96,14 @@ def gen_cases(tier, seed):
         cases.append({"kind": "ensemble", "engine": eng, "dt": dt, "tau": tau, "T": T, "rows": 4000 if q else 12000,
                       "nupd": 16 if q else 24, "seed": s(), "geom_seed": s()})
     if q:
-        cases.append({"kind": "meanT", "nH2O": 96, "nH2": 96, "dt": 0.2, "tau": 1.0, "T": 300.0, "burn": 40, "steps": 100,
-                      "seed": s(), "geom_seed": s()})
+        cases.append({"kind": "meanT", "nH2O": 96, "nH2": 96, "dt": 0.2, "tau": 1.0, "T": 300.0, "burn": 50, "steps": 100,
+                      "stage1": {"T": 50.0, "steps": 6}, "seed": s(), "geom_seed": s()})
     else:
         for dt, tau, T in ((0.1, 2.0, 300.0), (0.2, 1.0, 300.0), (0.1, 0.5, 600.0), (0.2, 1.0, 150.0)):
-            cases.append({"kind": "meanT", "nH2O": 128, "nH2": 128, "dt": dt, "tau": tau, "T": T, "burn": int(round(8 * tau / dt)),
+            cases.append({"kind": "meanT", "nH2O": 128, "nH2": 128, "dt": dt, "tau": tau, "T": T, "burn": int(round(10 * tau / dt)),
                           "steps": 600, "seed": s(), "geom_seed": s()})
+            if T in (600.0, 150.0):
+                cases[-1]["stage1"] = {"T": 2400.0 if T == 150.0 else 60.0, "steps": 20}
     for mols, method, damp in ((["H2O"], "AM1", 1e12), (["NH3", "H2O"], "PM3", "inf")) + \
             (() if q else ((["CH2O"], "AM1", 1e15), (["CH4", "H2O"], "MNDO", 1e12), (["HCN"], "AM1", "inf"))):
         cases.append({"kind": "tauinf", "mols": mols, "method": method, "damp": damp, "dt": 0.2, "steps": 12 if q else 30,
@@ -251,6 +257,28 @@ def _identity(case):
             done += 1
     if done == 0:
         return {"inconclusive": "no grid point initialised: %s" % errors[:2]}
+    # reuse of ONE driver object: new target temperature, then another molecule of the same padded shape
+    try:
+        with md.quiet():
+            dt, tau, T1, T2 = 0.3, 4.0, 50.0, 600.0
+            mdo = md.make_engine(eng, sett_shared, dt, T1, out, damp=tau, xl=xl)
+            mol.velocities = None
+            mdo.initialize(mol, remove_com=None, learned_parameters={}, steps=None)
+            _check_identity(acc, mdo, mol, dt, tau, T1, eng + "/reuse-first")
+            mdo.Temp = T2
+            mol.velocities = None
+            mdo.initialize(mol, remove_com=None, learned_parameters={}, steps=None)
+            _check_identity(acc, mdo, mol, dt, tau, T2, eng + "/reuse-Temp")
+            acc.mon["identity_reuse"] += 1
+            if eng != "sh":  # surface hopping only takes homogeneous batches: no same-shape different-element partner
+                mol2, _ = md.build_md("basic", S[::-1], C[::-1], sett, dt, T2, out)
+                if np.array_equal(np.asarray(S[::-1]), np.asarray(S)):
+                    raise RuntimeError("reversed batch has the same species layout")
+                mdo.initialize(mol2, remove_com=None, learned_parameters={}, steps=None)
+                _check_identity(acc, mdo, mol2, dt, tau, T2, eng + "/reuse-molecule")
+                acc.mon["identity_reuse"] += 1
+    except Exception as exc:
+        errors.append("reuse stage: %s: %s" % (type(exc).__name__, str(exc)[:200]))
     acc.mon["identity_engines"] += 1
     return acc.result(True, {"engine": eng, "grid_points": done, "errors": errors[:3], "elements": sorted({z for zz in Zs for z in zz})})
 
@@ -376,11 +404,22 @@ def _meanT(case):
 
         mdo._do_integrator_step = step
 
-    with env.Scratch("c12") as d:
-        rec = md.run_md("langevin", S, C, sett, dt, T, case["steps"], d + "/m", molid=molid, damp=tau, seed=case["seed"],
-                        out_kw=dict(coordinates=0, velocities=0, forces=0), pre_run=pre_run)
-    if rec["error"]:
-        return {"inconclusive": "langevin run raised: " + rec["error"][:300]}
+    stage1 = case.get("stage1")  # {"T": K, "steps": n}: the SAME driver object is first run at another target temperature
+    rec = {"h5": {}}
+    try:
+        with env.Scratch("c12") as d, md.quiet():
+            out = md.output_cfg(d + "/m", molid, coordinates=0, velocities=0, forces=0)
+            mol, mdo = md.build_md("langevin", S, C, sett, dt, stage1["T"] if stage1 else T, out, damp=tau)
+            pre_run(mol, mdo)
+            if stage1:
+                mdo.run(mol, steps=int(stage1["steps"]), seed=case["seed"])
+                del series[:]
+                mdo.Temp = float(T)  # staged heating: same driver, same molecule, new target
+            mdo.run(mol, steps=int(case["steps"]), seed=case["seed"] + 1)
+            for k in molid:
+                rec["h5"][k] = md.read_h5("%s/m.%d.h5" % (d, k))
+    except Exception as exc:
+        return {"inconclusive": "langevin run raised: %s: %s" % (type(exc).__name__, str(exc)[:300])}
     if len(series) != case["steps"]:
         return {"inconclusive": "step hook saw %d of %d steps" % (len(series), case["steps"])}
     A = np.array(series)  # [steps, B, M]
@@ -406,7 +445,9 @@ def _meanT(case):
         obs[name] = {"mean_T_over_target": Tm / T, "tolerance": tol}
         sums[name] = [float(W[:, sel].sum() / (md.REF_KB_AMU * T)), float(ndof * nW), float(ndof * neff)]
     acc.mon["meanT_samples"] += int(nW * len(S))
-    acc.cells.append("meanT/dt%g/tau%g/T%g" % (dt, tau, T))
+    acc.cells.append("meanT/dt%g/tau%g/T%g%s" % (dt, tau, T, "/after-stage-at-%gK" % stage1["T"] if stage1 else ""))
+    if stage1:
+        acc.mon["meanT_reused_driver"] += 1
     obs["pool"] = sums
     return acc.result(True, obs)
 
